@@ -25,6 +25,14 @@ pub struct ServiceInfo { _p: () }
 impl ServiceInfo {
     #[verifier::external_body]
     pub fn new(version: u32) -> (r: Self) { unimplemented!() }
+    #[verifier::external_body]
+    pub fn set_subscribe_all(self, subscribe_all: bool) -> (r: Self) { unimplemented!() }
+}
+opaque!(DeserializeError);
+impl SerializedValue {
+    // decoding of the payload is the codec's business (C01/C07); here only success/failure matters
+    #[verifier::external_body]
+    pub fn deserialize<T>(&self) -> (r: Result<T, DeserializeError>) { unimplemented!() }
 }
 
 // Cookies are random version-4 UUIDs (core/src/ids/*_cookie.rs: Uuid::new_v4). No specification: that a new cookie differs
@@ -63,6 +71,7 @@ impl ServiceId {
 //@item core/src/message/create_service_reply.rs enum CreateServiceResult
 //@item core/src/message/create_service_reply.rs struct CreateServiceReply
 //@item core/src/message/destroy_service.rs struct DestroyService
+//@item core/src/message/create_service2.rs struct CreateService2
 //@item core/src/message/destroy_service_reply.rs enum DestroyServiceResult
 //@item core/src/message/destroy_service_reply.rs struct DestroyServiceReply
 
@@ -680,6 +689,257 @@ impl Broker {
                 assert(mid.skey(mid.svcs@[k2].cookie) == k2);
             }
         }
+    //@end
+
+    // ---- create_object / destroy_object -------------------------------------------------------------------------
+    // everything but the object tables and the owner's object list
+    spec fn same_services_and_calls(&self, o: &Self) -> bool {
+        &&& self.svc_uuids@ =~= o.svc_uuids@ &&& self.svcs@ =~= o.svcs@ &&& self.calls() =~= o.calls()
+    }
+
+    //@fn broker/src/broker.rs Broker::create_object
+        requires
+            old(self).reg_inv(),
+        ensures
+            final(self).reg_inv(),
+            final(self).same_rest(old(self)),
+            final(self).same_services_and_calls(old(self)),
+            final(self).conns@.dom() =~= old(self).conns@.dom(),
+            // an object is created only for a connected requester and only if no live object has that UUID ...
+            (!old(self).conns@.contains_key(*id) || old(self).objs@.contains_key(req.uuid)) ==> {
+                &&& final(self).obj_uuids@ =~= old(self).obj_uuids@ &&& final(self).objs@ =~= old(self).objs@
+                &&& final(self).conns@ =~= old(self).conns@
+                &&& *final(state) == *old(state)
+            },
+            // ... otherwise either the reply could not be sent (the connection is dropped, nothing is created) ...
+            (old(self).conns@.contains_key(*id) && !old(self).objs@.contains_key(req.uuid)) ==> {
+                ||| (r is Err && final(self).obj_uuids@ =~= old(self).obj_uuids@ && final(self).objs@ =~= old(self).objs@
+                        && final(self).conns@ =~= old(self).conns@ && *final(state) == *old(state))
+                // ... or exactly one object with that UUID is registered under a cookie no live object uses, owned by the
+                // requester, without services, and announced once
+                ||| (r is Ok && exists|cookie: ObjectCookie| {
+                        &&& !old(self).obj_uuids@.contains_key(cookie)
+                        &&& final(self).obj_uuids@ =~= old(self).obj_uuids@.insert(cookie, req.uuid)
+                        &&& final(self).objs@.dom() =~= old(self).objs@.dom().insert(req.uuid)
+                        &&& final(self).objs@[req.uuid].conn_id == *id
+                        &&& final(self).objs@[req.uuid].cookie == cookie
+                        &&& final(self).objs@[req.uuid].svcs@ == Set::<ServiceCookie>::empty()
+                        &&& forall|u: ObjectUuid| #![trigger final(self).objs@[u]] old(self).objs@.contains_key(u) ==> final(self).objs@[u] == old(self).objs@[u]
+                        &&& forall|c: ConnectionId| #![trigger final(self).conns@[c]] old(self).conns@.contains_key(c) && c != *id ==> final(self).conns@[c] == old(self).conns@[c]
+                        &&& final(self).conns@[*id].objects@ == old(self).conns@[*id].objects@.insert(cookie)
+                        &&& final(self).conns@[*id].rest_eq(&old(self).conns@[*id], 2)
+                        &&& final(state).create_object@ == old(state).create_object@.push(ObjectId { uuid: req.uuid, cookie })
+                        &&& final(state).rest_eq(old(state), 7)
+                    })
+            },
+    //@ghost after `let cookie = ObjectCookie::new_v4();`
+        // ASSUMPTION (random UUIDv4): the new cookie is not the cookie of a live object
+        proof { assume(!self.obj_uuids@.contains_key(cookie)); }
+    //@end
+
+    //@fn broker/src/broker.rs Broker::destroy_object
+        requires
+            old(self).reg_inv(),
+        ensures
+            final(self).reg_inv(),
+            final(self).same_rest(old(self)),
+            final(self).conns@.dom() =~= old(self).conns@.dom(),
+            // only the owning connection can destroy an object: unknown requester, unknown cookie or foreign object => nothing
+            !(old(self).conns@.contains_key(*id) && old(self).obj_uuids@.contains_key(req.cookie)
+                && old(self).objs@[old(self).obj_uuids@[req.cookie]].conn_id == *id) ==> {
+                &&& final(self).same_registry(old(self))
+                &&& final(self).calls() =~= old(self).calls()
+                &&& final(self).conns@ =~= old(self).conns@
+                &&& *final(state) == *old(state)
+            },
+            // the owner's request: either the reply could not be sent (nothing happens, connection dropped) or the object is
+            // gone together with all its services
+            (old(self).conns@.contains_key(*id) && old(self).obj_uuids@.contains_key(req.cookie)
+                && old(self).objs@[old(self).obj_uuids@[req.cookie]].conn_id == *id) ==> {
+                ||| (r is Err && final(self).same_registry(old(self)) && final(self).calls() =~= old(self).calls()
+                        && final(self).conns@ =~= old(self).conns@ && *final(state) == *old(state))
+                ||| (r is Ok && {
+                        let u = old(self).obj_uuids@[req.cookie];
+                        &&& final(self).obj_uuids@ =~= old(self).obj_uuids@.remove(req.cookie)
+                        &&& final(self).objs@.dom() =~= old(self).objs@.dom().remove(u)
+                        &&& final(self).registry_without_object(old(self), u)
+                        &&& final(self).conns@[*id].objects@ == old(self).conns@[*id].objects@.remove(req.cookie)
+                        &&& final(state).destroy_object@ == old(state).destroy_object@.push(ObjectId { uuid: u, cookie: req.cookie })
+                    })
+            },
+    //@end
+
+    // ---- create_service / create_service2 / destroy_service -------------------------------------------------------
+    spec fn may_create_service(&self, id: &ConnectionId, oc: ObjectCookie, su: ServiceUuid) -> bool {
+        &&& self.conns@.contains_key(*id)
+        &&& self.obj_uuids@.contains_key(oc)
+        &&& !self.svcs@.contains_key((self.obj_uuids@[oc], su))
+        &&& self.objs@[self.obj_uuids@[oc]].conn_id == *id
+    }
+
+    //@fn broker/src/broker.rs Broker::create_service
+        requires
+            old(self).reg_inv(),
+        ensures
+            final(self).reg_inv(),
+            final(self).same_rest(old(self)),
+            final(self).obj_uuids@ =~= old(self).obj_uuids@,
+            final(self).calls() =~= old(self).calls(),
+            final(self).conns@ =~= old(self).conns@,
+            final(self).objs@.dom() =~= old(self).objs@.dom(),
+            // a service is created only by the connected owner of a live object that has no live service with that UUID
+            !old(self).may_create_service(id, req.object_cookie, req.uuid) ==> {
+                &&& final(self).svc_uuids@ =~= old(self).svc_uuids@ &&& final(self).svcs@ =~= old(self).svcs@
+                &&& final(self).objs@ =~= old(self).objs@
+                &&& *final(state) == *old(state)
+            },
+            (old(self).may_create_service(id, req.object_cookie, req.uuid)) ==> {
+                // either nothing is created (reply not sent / payload not decodable: the connection is dropped) ...
+                ||| (r is Err && final(self).svc_uuids@ =~= old(self).svc_uuids@ && final(self).svcs@ =~= old(self).svcs@
+                        && final(self).objs@ =~= old(self).objs@ && *final(state) == *old(state))
+                // ... or exactly one service is registered under a cookie no live service uses, attached to that object
+                ||| (r is Ok && exists|sc: ServiceCookie| #![trigger final(self).svc_uuids@.contains_key(sc)] {
+                        let u = old(self).obj_uuids@[req.object_cookie];
+                        &&& !old(self).svc_uuids@.contains_key(sc)
+                        &&& final(self).svc_uuids@.dom() =~= old(self).svc_uuids@.dom().insert(sc)
+                        &&& final(self).svc_uuids@[sc].0 == (ObjectId { uuid: u, cookie: req.object_cookie })
+                        &&& final(self).svc_uuids@[sc].1 == req.uuid
+                        &&& forall|o: ServiceCookie| #![trigger final(self).svc_uuids@[o]] old(self).svc_uuids@.contains_key(o) ==> final(self).svc_uuids@[o] == old(self).svc_uuids@[o]
+                        &&& final(self).svcs@.dom() =~= old(self).svcs@.dom().insert((u, req.uuid))
+                        &&& final(self).svcs@[(u, req.uuid)].cookie == sc
+                        &&& final(self).svcs@[(u, req.uuid)].object_cookie == req.object_cookie
+                        &&& final(self).svcs@[(u, req.uuid)].function_calls@ == Set::<u32>::empty()
+                        &&& final(self).svcs@[(u, req.uuid)].subscriptions@ == Set::<ConnectionId>::empty()
+                        &&& final(self).svcs@[(u, req.uuid)].all_events@ == Set::<ConnectionId>::empty()
+                        &&& forall|e: u32| final(self).svcs@[(u, req.uuid)].subs(e) == Set::<ConnectionId>::empty()
+                        &&& forall|k: (ObjectUuid, ServiceUuid)| #![trigger final(self).svcs@[k]] old(self).svcs@.contains_key(k) ==> final(self).svcs@[k] == old(self).svcs@[k]
+                        &&& final(self).objs@[u].svcs@ == old(self).objs@[u].svcs@.insert(sc)
+                        &&& final(self).objs@[u].conn_id == old(self).objs@[u].conn_id
+                        &&& final(self).objs@[u].cookie == old(self).objs@[u].cookie
+                        &&& forall|u2: ObjectUuid| #![trigger final(self).objs@[u2]] old(self).objs@.contains_key(u2) && u2 != u ==> final(self).objs@[u2] == old(self).objs@[u2]
+                        &&& final(state).create_service@ == old(state).create_service@.push(
+                                ServiceId { object_id: ObjectId { uuid: u, cookie: req.object_cookie }, uuid: req.uuid, cookie: sc })
+                        &&& final(state).rest_eq(old(state), 9)
+                    })
+            },
+    //@ghost after `state.push_create_service(ServiceId::new(object_id, req.uuid, svc_cookie));`
+        proof {
+            let u = old(self).obj_uuids@[req.object_cookie];
+            let sc = svc_cookie;
+            assert(u == obj_uuid);
+            assert(!old(self).svc_uuids@.contains_key(sc));
+            assert(self.svc_uuids@.dom() =~= old(self).svc_uuids@.dom().insert(sc));
+            assert(self.svc_uuids@[sc].0 == (ObjectId { uuid: u, cookie: req.object_cookie }));
+            assert(self.svcs@.dom() =~= old(self).svcs@.dom().insert((u, req.uuid)));
+            assert(self.svcs@[(u, req.uuid)].cookie == sc);
+            assert(forall|e: u32| self.svcs@[(u, req.uuid)].subs(e) == Set::<ConnectionId>::empty());
+            assert(self.objs@[u].svcs@ == old(self).objs@[u].svcs@.insert(sc));
+            assert(forall|u2: ObjectUuid| #![trigger self.objs@[u2]] old(self).objs@.contains_key(u2) && u2 != u ==> self.objs@[u2] == old(self).objs@[u2]);
+            assert(self.svc_uuids@.contains_key(sc));
+        }
+    //@ghost after `let svc_cookie = ServiceCookie::new_v4();`
+        // ASSUMPTION (random UUIDv4): the new cookie is not the cookie of a live service
+        proof { assume(!self.svc_uuids@.contains_key(svc_cookie)); }
+    //@end
+
+    //@fn broker/src/broker.rs Broker::create_service2
+        requires
+            old(self).reg_inv(),
+        ensures
+            final(self).reg_inv(),
+            final(self).same_rest(old(self)),
+            final(self).obj_uuids@ =~= old(self).obj_uuids@,
+            final(self).calls() =~= old(self).calls(),
+            final(self).conns@ =~= old(self).conns@,
+            final(self).objs@.dom() =~= old(self).objs@.dom(),
+            // CreateService2 exists since protocol 1.17: a connection negotiated below that is closed and nothing happens
+            (old(self).conns@.contains_key(*id) && ProtocolVersion::lex_cmp(old(self).conns@[*id].version, ProtocolVersion::V1_17) == core::cmp::Ordering::Less)
+                ==> r is Err && final(self).svc_uuids@ =~= old(self).svc_uuids@ && final(self).svcs@ =~= old(self).svcs@ && final(self).objs@ =~= old(self).objs@ && *final(state) == *old(state),
+            // a service is created only by the connected owner of a live object that has no live service with that UUID
+            !old(self).may_create_service(id, req.object_cookie, req.uuid) ==> {
+                &&& final(self).svc_uuids@ =~= old(self).svc_uuids@ &&& final(self).svcs@ =~= old(self).svcs@
+                &&& final(self).objs@ =~= old(self).objs@
+                &&& *final(state) == *old(state)
+            },
+            (old(self).may_create_service(id, req.object_cookie, req.uuid) && ProtocolVersion::lex_cmp(old(self).conns@[*id].version, ProtocolVersion::V1_17) != core::cmp::Ordering::Less) ==> {
+                // either nothing is created (reply not sent / payload not decodable: the connection is dropped) ...
+                ||| (r is Err && final(self).svc_uuids@ =~= old(self).svc_uuids@ && final(self).svcs@ =~= old(self).svcs@
+                        && final(self).objs@ =~= old(self).objs@ && *final(state) == *old(state))
+                // ... or exactly one service is registered under a cookie no live service uses, attached to that object
+                ||| (r is Ok && exists|sc: ServiceCookie| #![trigger final(self).svc_uuids@.contains_key(sc)] {
+                        let u = old(self).obj_uuids@[req.object_cookie];
+                        &&& !old(self).svc_uuids@.contains_key(sc)
+                        &&& final(self).svc_uuids@.dom() =~= old(self).svc_uuids@.dom().insert(sc)
+                        &&& final(self).svc_uuids@[sc].0 == (ObjectId { uuid: u, cookie: req.object_cookie })
+                        &&& final(self).svc_uuids@[sc].1 == req.uuid
+                        &&& forall|o: ServiceCookie| #![trigger final(self).svc_uuids@[o]] old(self).svc_uuids@.contains_key(o) ==> final(self).svc_uuids@[o] == old(self).svc_uuids@[o]
+                        &&& final(self).svcs@.dom() =~= old(self).svcs@.dom().insert((u, req.uuid))
+                        &&& final(self).svcs@[(u, req.uuid)].cookie == sc
+                        &&& final(self).svcs@[(u, req.uuid)].object_cookie == req.object_cookie
+                        &&& final(self).svcs@[(u, req.uuid)].function_calls@ == Set::<u32>::empty()
+                        &&& final(self).svcs@[(u, req.uuid)].subscriptions@ == Set::<ConnectionId>::empty()
+                        &&& final(self).svcs@[(u, req.uuid)].all_events@ == Set::<ConnectionId>::empty()
+                        &&& forall|e: u32| final(self).svcs@[(u, req.uuid)].subs(e) == Set::<ConnectionId>::empty()
+                        &&& forall|k: (ObjectUuid, ServiceUuid)| #![trigger final(self).svcs@[k]] old(self).svcs@.contains_key(k) ==> final(self).svcs@[k] == old(self).svcs@[k]
+                        &&& final(self).objs@[u].svcs@ == old(self).objs@[u].svcs@.insert(sc)
+                        &&& final(self).objs@[u].conn_id == old(self).objs@[u].conn_id
+                        &&& final(self).objs@[u].cookie == old(self).objs@[u].cookie
+                        &&& forall|u2: ObjectUuid| #![trigger final(self).objs@[u2]] old(self).objs@.contains_key(u2) && u2 != u ==> final(self).objs@[u2] == old(self).objs@[u2]
+                        &&& final(state).create_service@ == old(state).create_service@.push(
+                                ServiceId { object_id: ObjectId { uuid: u, cookie: req.object_cookie }, uuid: req.uuid, cookie: sc })
+                        &&& final(state).rest_eq(old(state), 9)
+                    })
+            },
+    //@ghost after `state.push_create_service(ServiceId::new(object_id, req.uuid, svc_cookie));`
+        proof {
+            let u = old(self).obj_uuids@[req.object_cookie];
+            let sc = svc_cookie;
+            assert(u == obj_uuid);
+            assert(!old(self).svc_uuids@.contains_key(sc));
+            assert(self.svc_uuids@.dom() =~= old(self).svc_uuids@.dom().insert(sc));
+            assert(self.svc_uuids@[sc].0 == (ObjectId { uuid: u, cookie: req.object_cookie }));
+            assert(self.svcs@.dom() =~= old(self).svcs@.dom().insert((u, req.uuid)));
+            assert(self.svcs@[(u, req.uuid)].cookie == sc);
+            assert(forall|e: u32| self.svcs@[(u, req.uuid)].subs(e) == Set::<ConnectionId>::empty());
+            assert(self.objs@[u].svcs@ == old(self).objs@[u].svcs@.insert(sc));
+            assert(forall|u2: ObjectUuid| #![trigger self.objs@[u2]] old(self).objs@.contains_key(u2) && u2 != u ==> self.objs@[u2] == old(self).objs@[u2]);
+            assert(self.svc_uuids@.contains_key(sc));
+        }
+    //@ghost after `let svc_cookie = ServiceCookie::new_v4();`
+        // ASSUMPTION (random UUIDv4): the new cookie is not the cookie of a live service
+        proof { assume(!self.svc_uuids@.contains_key(svc_cookie)); }
+    //@end
+
+    //@fn broker/src/broker.rs Broker::destroy_service
+        requires
+            old(self).reg_inv(),
+        ensures
+            final(self).reg_inv(),
+            final(self).same_rest(old(self)),
+            final(self).conns@.dom() =~= old(self).conns@.dom(),
+            final(self).obj_uuids@ =~= old(self).obj_uuids@,
+            // only the connection owning the object can destroy one of its services
+            !(old(self).conns@.contains_key(*id) && old(self).svc_uuids@.contains_key(req.cookie)
+                && old(self).objs@[old(self).svc_uuids@[req.cookie].0.uuid].conn_id == *id) ==> {
+                &&& final(self).same_registry(old(self))
+                &&& final(self).calls() =~= old(self).calls()
+                &&& final(self).conns@ =~= old(self).conns@
+                &&& *final(state) == *old(state)
+            },
+            (old(self).conns@.contains_key(*id) && old(self).svc_uuids@.contains_key(req.cookie)
+                && old(self).objs@[old(self).svc_uuids@[req.cookie].0.uuid].conn_id == *id) ==> {
+                ||| (r is Err && final(self).same_registry(old(self)) && final(self).calls() =~= old(self).calls()
+                        && final(self).conns@ =~= old(self).conns@ && *final(state) == *old(state))
+                ||| (r is Ok && {
+                        let k = old(self).skey(req.cookie);
+                        &&& final(self).svc_uuids@ =~= old(self).svc_uuids@.remove(req.cookie)
+                        &&& final(self).svcs@ =~= old(self).svcs@.remove(k)
+                        &&& final(self).objs@[k.0].svcs@ == old(self).objs@[k.0].svcs@.remove(req.cookie)
+                        &&& final(self).calls() =~= old(self).calls().remove_keys(old(self).svcs@[k].function_calls@)
+                        &&& final(state).destroy_service@ == old(state).destroy_service@.push(
+                                ServiceId { object_id: old(self).svc_uuids@[req.cookie].0, uuid: k.1, cookie: req.cookie })
+                    })
+            },
     //@end
 }
 
